@@ -37,9 +37,10 @@ def producesResult (cmd : String) : Bool :=
   cmd.startsWith "idx " || cmd.startsWith "errlen " || cmd.startsWith "badarg " || cmd.startsWith "run " ||
   cmd.startsWith "stackprog "
 
-/-- short description of a command for verdict lines: its first three words -/
+/-- short description of a command for verdict lines: its first three words (the whole line for `stackprog`) -/
 def cmdTag (cmd : String) : String :=
-  " ".intercalate (((cmd.splitOn " ").filter (· ≠ "")).take 3)
+  let ws := (cmd.splitOn " ").filter (· ≠ "")
+  " ".intercalate (if cmd.startsWith "stackprog " then ws else ws.take 3)
 
 def cmdAt (cmds : List String) (k : Nat) : String :=
   match (cmds.filter producesResult)[k]? with
